@@ -230,6 +230,7 @@ func checkC11(p *Program, r *Report) {
 	t1, t2, t3 := analyseTraversal(p, b1), analyseTraversal(p, b2), analyseTraversal(p, te)
 	travs := []*travInfo{t1, t2, t3}
 	names := []string{FnName(b1), FnName(b2), FnName(te)}
+	c11allPaths(p, r, []*ssa.Function{b1, b2})
 
 	// ---- C11.width
 	var wterms []*Term
@@ -1158,4 +1159,79 @@ func equalityScan(fn *ssa.Function, k int) (bool, string) {
 		return false, "the scan does not return both verdicts"
 	}
 	return true, "loop over the whole set; true on an equal element; false after exhaustion"
+}
+
+// c11allPaths (round 7, C11-agent7-m2): every message a builder hands out is the one the tree traversal produced.  The
+// exported builders (functions returning *wire.MsgMerkleBlock in bloom and merkleblock) reach the recursive traversal
+// — directly or through the common tail — on every path to every return; a "nothing matched" fast path that assembles
+// the message by hand (one hash, no flag byte) is not the canonical partial tree and does not extract.
+func c11allPaths(p *Program, r *Report, travs []*ssa.Function) {
+	isTrav := map[*ssa.Function]bool{}
+	for _, t := range travs {
+		isTrav[t] = true
+	}
+	reaches := map[*ssa.Function]bool{}
+	var reach func(fn *ssa.Function, depth int) bool
+	reach = func(fn *ssa.Function, depth int) bool {
+		if isTrav[fn] {
+			return true
+		}
+		if v, ok := reaches[fn]; ok {
+			return v
+		}
+		reaches[fn] = false
+		if depth > 5 || !p.InRepo(fn) {
+			return false
+		}
+		for _, b := range fn.Blocks {
+			for _, in := range b.Instrs {
+				if c, ok := in.(*ssa.Call); ok {
+					if cal := c.Call.StaticCallee(); cal != nil && reach(cal, depth+1) {
+						reaches[fn] = true
+						return true
+					}
+				}
+			}
+		}
+		return false
+	}
+	n := 0
+	for _, fn := range p.Funcs {
+		if fn.Parent() != nil || fn.Object() == nil || !fn.Object().Exported() || fn.Signature.Recv() != nil || fn.Signature.Results().Len() == 0 {
+			continue
+		}
+		if fn.Pkg != p.Pkg("bloom") && fn.Pkg != p.Pkg("merkleblock") {
+			continue
+		}
+		pt, ok := fn.Signature.Results().At(0).Type().Underlying().(*types.Pointer)
+		if !ok || !isNamed(pt.Elem(), "github.com/gcash/bchd/wire", "MsgMerkleBlock") {
+			continue
+		}
+		if !reach(fn, 0) {
+			continue
+		}
+		for i, ret := range returnsOf(fn) {
+			if isNilConst(ret.Results[0]) {
+				continue
+			}
+			n++
+			dominated := false
+			for _, b := range fn.Blocks {
+				for _, in := range b.Instrs {
+					c, ok := in.(*ssa.Call)
+					if !ok || c.Call.StaticCallee() == nil || !reach(c.Call.StaticCallee(), 1) {
+						continue
+					}
+					if b == ret.Block() || b.Dominates(ret.Block()) {
+						dominated = true
+					}
+				}
+			}
+			r.Add("C11.extract", FnName(fn), fmt.Sprintf("return #%d hands out a message built by the tree traversal", i+1), ret.Pos(), dominated,
+				"some path to this return does not go through the traversal: the message is assembled by other means")
+		}
+	}
+	if n == 0 {
+		r.Unresolved("C11.extract", "exported merkle-block builders that reach a traversal")
+	}
 }
